@@ -61,7 +61,7 @@ def run(res):
             lastf = files_last = None
         res.count("histories")
 
-    wl.run_histories(res, nh, oracle, invalid_rate=0.25, far=True)
+    wl.run_histories(res, nh, oracle, invalid_rate=0.25, far=True, after_close=0.3)
     # last file/dir getters on a dedicated set (need the writer object after close)
     check_last_getters(res, 30 if res.tier == "quick" else 300)
     res.assumptions += ["the state after an I/O failure or a refused attempt to enter a finalized file period is not claimed (as the property says)"]
